@@ -11,6 +11,7 @@ tools/mkoverlay.sh "bin/overlay-$id.json"
 maprange=""; syncpk=""
 case "$id" in
   C07) maprange="compile" ;;
+  C10) maprange="compile,gen,internal/plugin,plugin" ;;
 esac
 if [ -n "$maprange$syncpk" ]; then
   [ -x bin/overlaygen ] || go build -o bin/overlaygen ./tools/overlaygen || exit 2
